@@ -27,6 +27,10 @@ from pyvc.contracts import REGISTRY, ContractError     # noqa: E402
 from pyvc import native                                # noqa: E402
 
 EVIDENCE_DIR = os.path.join(HERE, 'evidence')
+if os.path.realpath(os.environ.get('VERIF_REPO', '/repo')) != os.path.realpath('/repo'):
+    # development runs against a scratch copy of the tree (seeded / behaviour-preserving changes) do not
+    # overwrite the evidence of the repository itself
+    EVIDENCE_DIR = os.path.join(HERE, '.logs', 'evidence_scratch')
 REPLAY_DIR = os.path.join(HERE, 'replays')
 FINDINGS_FILE = os.path.join(HERE, 'known_findings.json')
 
@@ -54,9 +58,10 @@ def run_proofs(cs, jobs):
 
 
 def _native_worker(args):
-    qualname, n_cases, seed, size = args
+    qualname, n_cases, seed, size = args[:4]
+    budget = args[4] if len(args) > 4 else None
     c = REGISTRY.get(qualname)
-    return native_check(c, n_cases, seed, size)
+    return native_check(c, n_cases, seed, size, time_budget_s=budget)
 
 
 SEARCH_BUDGET_S = float(os.environ.get('VERIF_SEARCH_BUDGET_S', '60'))
@@ -197,6 +202,21 @@ def main(argv=None):
     results = run_proofs(proved_cs, a.jobs)
     n_cases = 300 if tier == 'quick' else 4000
     natives = run_natives(bounded_cs, n_cases, seed, a.jobs)
+    # a function whose contract no longer fits its source is not decided by the prover: the same
+    # clauses are executed on the real function over ten times as many generated inputs instead
+    # (another seed, within a time budget) - a bounded stand-in, reported as such
+    stale = [REGISTRY.get(r['qualname']) for r in results
+             if r['status'] in ('contract-out-of-date', 'unsupported')]
+    stale = [c for c in stale if c is not None and c.native and not (c.native or {}).get('enumerate')]
+    if stale:
+        work = [(c.qualname, 10 * n_cases * c.native.get('weight', 1), seed + 7919, c.native.get('size', 4),
+                 SEARCH_BUDGET_S) for c in stale]
+        ctxp = mp.get_context('fork')
+        with ctxp.Pool(processes=max(1, min(a.jobs, len(work))), maxtasksperchild=1) as pool:
+            extra = pool.map(_native_worker, work, chunksize=1)
+        for e in extra:
+            e['form'] = (e.get('form') or '') + ' (extended run: contract out of date, prover undecided)'
+        natives = natives + extra
     # property-level bounded module
     bounded = []
     try:
